@@ -20,7 +20,7 @@ ASSUMPTIONS = [
     "prototype table transcribed from the pinned commit (the README names the categories, the values are in code)",
     "statistical clauses can in principle fail by chance with probability < 1e-8 per case",
 ]
-FLOORS = {"all_three_classes_ops_ge3": 0.1, "mode_gap": 0.04, "mode_shift": 0.04, "mode_freq": 0.04}
+FLOORS = {"all_three_classes_ops_ge3": 0.1, "mode_gap": 0.04, "mode_shift": 0.04, "mode_freq": 0.04, "second_generator_built_midstream": 5}
 PROTOS = {(1, "const", 55), (2, "sqrt", 55), (5, "linear3", 45), (15, "linear3", 37.5), (20, "linear7", 30), (40, "linear7", 20),
           (80, "squared", 10)}
 QUERY_PROTO = (15, "linear3", 35)
@@ -71,6 +71,11 @@ def case(draw, tier):
         params["waiting_seconds_mean"] = 1.0
         params["ticks_per_second"] = 10
     case_ = {"params": params, "mode": mode}
+    if mode in ("structure", "rare") and draw(st.integers(0, 2)) == 0:
+        # another generator (other seed, other burst size) is built in the same process after some events of this one and
+        # ticked along with it from then on: the ids of this one must stay fresh all the same
+        case_["companion"] = {"after": draw(st.integers(1, 6)), "random_seed": draw(st.integers(0, 1000)),
+                              "num_pipelines": draw(st.sampled_from([1, 3, 12]))}
     if mode == "rare":
         case_["events"] = 150 if tier == "quick" else 600
     return case_
@@ -98,13 +103,18 @@ def make_gen(params):
     return WorkloadGenerator(**parse_args_with_defaults(dict(params)))
 
 
-def run_events(params, want_events, max_ticks, P=None, structure=True):
+def run_events(params, want_events, max_ticks, P=None, structure=True, companion=None):
     """returns (events [(tick, pipelines)], ticks run)"""
     gen = make_gen(params)
     events = []
     ids = set()
     t = 0
+    other = None
     while len(events) < want_events and t < max_ticks:
+        if companion is not None and other is None and len(events) >= companion["after"]:
+            other = make_gen({**params, "random_seed": companion["random_seed"], "num_pipelines": companion["num_pipelines"]})
+        if other is not None:
+            other.run_one_tick()
         ps = gen.run_one_tick()
         if ps:
             events.append((t, ps))
@@ -167,6 +177,8 @@ def run_case(spec):
             out.problem(key, msg)
 
     out.label("mode_" + mode)
+    if spec.get("companion") and mode in ("structure", "rare"):
+        out.label("second_generator_built_midstream")
     probs = (params["query_prob"], params["interactive_prob"], params["batch_prob"])
     if all(p > 0 for p in probs) and params["num_operators"] >= 3:
         out.label("all_three_classes_ops_ge3")
@@ -178,10 +190,10 @@ def run_case(spec):
     wticks = params["waiting_seconds_mean"] * tps
     try:
         if mode == "rare":
-            events, t = run_events(params, spec.get("events", 150), 200000, P)
+            events, t = run_events(params, spec.get("events", 150), 200000, P, companion=spec.get("companion"))
             out.extra_evals = sum(len(ps) for _, ps in events)
         elif mode == "structure":
-            events, t = run_events(params, 60, 200000, P)
+            events, t = run_events(params, 60, 200000, P, companion=spec.get("companion"))
             out.extra_evals = len(events)
             ticks = [e[0] for e in events]
             if any(b - a < 1 for a, b in zip(ticks, ticks[1:])):
